@@ -19,6 +19,9 @@ func HandlePrograms(fs string) []Prog {
 		// a write that lands beyond the end: the gap and the new size are computed from the size read before
 		{Op: "H.WriteAt", Data: "U", N: 5},
 		{Op: "H.Seek", N: 0, M: 0}, {Op: "H.Truncate", N: 1}, {Op: "H.Stat"}, {Op: "H.Sync"}, {Op: "H.Name"}, {Op: "H.Close"},
+		// the attribute setters of a handle: they reach the node through the handle (Close takes it away)
+		// and write what every other call reads under the node's lock
+		{Op: "H.Chmod", Perm: 0o600},
 	}
 	dirSteps := []fsx.Call{
 		{Op: "H.ReadDir", N: 1}, {Op: "H.Readdirnames", N: 1}, {Op: "H.ReadDir", N: -1}, {Op: "H.Readdirnames", N: -1},
